@@ -150,10 +150,44 @@ def rule_handshake_tables(ctx):
         run = HsRun(ctx, fn, role, _octets_tw())
         run.vec.run(blocks[0].body)
         _judge(ctx, f"twisted {role}", run, fn, role, reserved_rejected=False)
-        # accumulation of the first four octets across reads
-        t = {norm.text(s.targets[0]) if isinstance(s, ast.Assign) else norm.text(s.target): norm.text(s.value) for s in walk_no_defs(fn.node) if isinstance(s, (ast.Assign, ast.AugAssign))}
-        ok = t.get("remaining") == "4 - len(self._handshake_bytes)" and t.get("self._handshake_bytes") == "data[:remaining]" and t.get("data") == "data[remaining:]"
-        ctx.ob(f"twisted {role}: handshake octets accumulated across reads, remainder re-processed", ok, f"{t}", fn.loc())
+        # accumulation of the first four octets across reads, decided cell-wise over (octets buffered before) x (length of this read): the
+        # stream positions 0..3 are collected, the handshake is judged exactly when the fourth arrives, what lies behind is re-processed
+        import copy
+        from ..core.tiny import Tiny, Sym, Buf
+        body = copy.deepcopy([x for x in fn.node.body if not (isinstance(x, ast.Expr) and isinstance(x.value, ast.Constant))])
+        for x in ast.walk(ast.Module(body=body, type_ignores=[])):
+            if isinstance(x, ast.If) and norm.text(x.test) == "len(self._handshake_bytes) == 4":
+                x.body = [ast.fix_missing_locations(ast.copy_location(ast.Expr(value=ast.Call(func=ast.Name(id="__judge_handshake", ctx=ast.Load()), args=[], keywords=[])), x))]
+        probs = []
+        try:
+            for k in range(4):
+                for d in range(7):
+                    judged, again = [], []
+
+                    def default(f_, a_, k_=None):
+                        if f_ == "self.dataReceived":
+                            again.append(a_[0] if a_ else None)
+                            return None
+                        return Sym(f"<{f_}>")
+                    t = Tiny({"self": Sym("protocol"), "self._handshake_complete": False, "self._handshake_bytes": Buf(0, k), fn.params()[1]: Buf(k, k + d)},
+                             calls={"__judge_handshake": lambda: judged.append(1)}, default_call=default)
+                    r = t.run(body)
+                    have = min(4, k + d)
+                    cell = f"{k} handshake octet(s) buffered, read of {d} octet(s)"
+                    hb = t.env.get("self._handshake_bytes")
+                    if r[0] == "raise":
+                        probs.append(f"{cell}: raises {r[1]}")
+                    elif not (isinstance(hb, Buf) and len(hb) == have and (have == 0 or (hb.lo, hb.hi) == (0, have))):
+                        probs.append(f"{cell}: handshake buffer is {hb}, expected stream[0:{have}]")
+                    elif (len(judged) == 1) != (have == 4) or len(judged) > 1:
+                        probs.append(f"{cell}: handshake judged {len(judged)} time(s)")
+                    elif k + d > 4 and not (len(again) == 1 and isinstance(again[0], Buf) and (again[0].lo, again[0].hi) == (4, k + d)):
+                        probs.append(f"{cell}: octets behind the handshake handed on as {again}, expected stream[4:{k + d}]")
+                    elif k + d <= 4 and any(isinstance(x, Buf) and len(x) for x in again):
+                        probs.append(f"{cell}: {again} re-processed although nothing lies behind the handshake")
+            ctx.ob(f"twisted {role}: handshake octets accumulated across reads, judged when complete, remainder re-processed [28 cells]", not probs, "; ".join(probs[:2]), fn.loc())
+        except AnalysisError as e:
+            raise AnalysisError(f"[C13.1-rawsocket-handshake-decision-table] {cls}.dataReceived outside the modelled subset: {e}")
     # ---- asyncio ---------------------------------------------------------------------------------
     ph = ctx.program.func(f"{AIO}.RawSocketProtocol.parse_handshake")
     ctx.analysed(ph)
@@ -550,3 +584,7 @@ def run(ctx):
     rule_limits(ctx)
     rule_subprotocol(ctx)
     rule_ids(ctx)
+    # "both ends use that serializer with the matching text/binary framing; a frame of the wrong type closes the transport": the session
+    # serializer refuses a frame whose text/binary flag differs from its own, and the three transports hand the flag on (checked in C13.3)
+    from .c08 import rule_envelope
+    rule_envelope(ctx, "C13.10-frame-type-matches-serializer")
